@@ -42,6 +42,7 @@ def run_one(m, run_tests):
       tests = 'repo-tests=%s' % ('pass' if p.returncode == 0 else 'FAIL')
     env = dict(os.environ)
     env['VERIF_REPO'] = dst
+    env['VERIF_OUT'] = os.path.join(scratch, 'out')      # evidence / replays of mutant runs never touch /verif
     env.setdefault('VERIF_SEED', '1')
     cmd = ['/venv/bin/python', '-m', 'vf.run', m['property'], '--tier', 'quick']
     p = subprocess.run(cmd, cwd=VERIF, env=env, capture_output=True, text=True)
@@ -68,27 +69,13 @@ def main():
   if a.only:
     only = set(a.only.split(','))
     muts = [m for m in muts if m['property'] in only or m['name'] in only]
-  # evidence/replays written by mutant runs are restored afterwards
-  keep = tempfile.mkdtemp(prefix='vf-keep-')
-  for d in ('evidence', 'replays'):
-    if os.path.isdir(os.path.join(VERIF, d)):
-      shutil.copytree(os.path.join(VERIF, d), os.path.join(keep, d))
   missed = 0
-  try:
-    # same-property mutants share an evidence file: run properties in parallel is
-    # fine because evidence is restored at the end
-    with ThreadPoolExecutor(a.jobs) as ex:
-      for m, verdict, tests in ex.map(lambda m: run_one(m, a.tests), muts):
-        print('%-4s %-34s %s %s' % (m['property'], m['name'], verdict, tests))
-        sys.stdout.flush()
-        if not verdict.startswith('caught'):
-          missed += 1
-  finally:
-    for d in ('evidence', 'replays'):
-      shutil.rmtree(os.path.join(VERIF, d), ignore_errors=True)
-      if os.path.isdir(os.path.join(keep, d)):
-        shutil.copytree(os.path.join(keep, d), os.path.join(VERIF, d))
-    shutil.rmtree(keep, ignore_errors=True)
+  with ThreadPoolExecutor(a.jobs) as ex:
+    for m, verdict, tests in ex.map(lambda m: run_one(m, a.tests), muts):
+      print('%-4s %-34s %s %s' % (m['property'], m['name'], verdict, tests))
+      sys.stdout.flush()
+      if not verdict.startswith('caught'):
+        missed += 1
   print('%d mutants, %d missed' % (len(muts), missed))
   return 1 if missed else 0
 
